@@ -85,7 +85,7 @@ def verus_version():
         return "unknown"
 
 
-def run_verus(path, extra=(), multiple_errors=20, rlimit=None, timeout=1800):
+def run_verus(path, extra=(), multiple_errors=40, rlimit=None, timeout=1800):
     """returns dict(json=..., diags=[...], wall_s=..., cmd=...)  -- cached by content hash"""
     os.makedirs(os.path.join(BUILD, "cache"), exist_ok=True)
     key = hashlib.sha256((sha_file(path) + "|" + " ".join(extra) + f"|{multiple_errors}|{rlimit}|" + verus_version()).encode()).hexdigest()
@@ -149,6 +149,27 @@ def classify(diags, meta):
     fprops = {(f["src"], f["item"]): f for f in meta["functions"]}
     failures, hard, undec = [], [], []
     for d in diags:
+        if d.get("level") == "note" and "not all errors may have been reported" in d.get("message", ""):
+            # Verus stops after --multiple-errors failures per function: the failures it did not report may belong to
+            # ANY clause of that function, so the function's props and all its clause tags count as failed
+            tfn = None
+            for sp in d.get("spans", []):
+                for ln in range(sp["line_start"], sp["line_end"] + 1):
+                    info = linemap[ln - 1] if 0 < ln <= len(linemap) else None
+                    if info and "fn" in info and "src" in info:
+                        tfn = (info["src"], info["fn"])
+                        break
+                if tfn:
+                    break
+            if tfn:
+                tg = set((fprops.get(tfn) or {}).get("props", []))
+                for c in meta.get("clauses", []):
+                    if (c["src"], c["fn"]) == tfn:
+                        tg.update(t for t in c["tags"] if re.fullmatch(r"C\d+", t))
+                failures.append({"message": "more obligations of this function failed than the verifier reported (--multiple-errors limit)", "tags": sorted(tg),
+                                 "dep_tags": [], "clauses": [], "fn": tfn[1], "where": [f"{tfn[0]} in {tfn[1]} (list of failures truncated)"],
+                                 "spec_only": False, "rendered": d.get("rendered", "")})
+            continue
         if d.get("level") != "error":
             continue
         msg = d.get("message", "")
